@@ -313,20 +313,28 @@ func (f *FieldCopyToGenerator) genListOrMap() *j.Statement {
 				),
 			)
 
+			if f.IsRepeated {
+				// It might happen that we changed the number of elements (a nil list has none).
+				// This check creates a new array if that's the case.
+				// Otherwise, we would have a panic at the last line in the For loop or extra elements.
+				g.If(j.Len(j.Id(fieldName)).Op("!=").Len(j.Id("c.Elems"))).Block(
+					j.Id("c.Elems").Op("=").Add(mk),
+				)
+			}
+			if f.IsMap {
+				// Drop the keys which are not in the source map anymore (a nil map has none).
+				g.For(j.Id("k")).Op(":=").Range().Id("c.Elems").Block(
+					j.If(j.List(j.Id("_"), j.Id("ok")).Op(":=").Id(fieldName).Index(j.Id("k")), j.Id("!ok")).Block(
+						j.Delete(j.Id("c.Elems"), j.Id("k")),
+					),
+				)
+			}
+
 			g.If(j.Id(fieldName)).Op("!=").Nil().BlockFunc(func(g *j.Group) {
 				if (f.Kind == PrimitiveListKind) || (f.Kind == PrimitiveMapKind) {
 					g.Id("t").Op(":=").Id("o.ElemType")
 				} else {
 					g.Id("o").Op(":=").Id("o.ElemType").Assert(j.Id(f.i.WithType(f.ElemType)))
-				}
-
-				if f.IsRepeated {
-					// It might happen that we changed the number of elements.
-					// This check creates a new array if that's the case.
-					// Otherwise, we would have a panic at the last line in the For loop or extra elements.
-					g.If(j.Len(j.Id(fieldName)).Op("!=").Len(j.Id("c.Elems"))).Block(
-						j.Id("c.Elems").Op("=").Add(mk),
-					)
 				}
 
 				// for k, a := range obj.List
